@@ -15,6 +15,11 @@ package obfs4
 // deadline-capable wrapper around the obfs4 connection, and its three deadline methods act on the connection the
 // client arrived on (where all of the obfs4 connection's I/O happens).
 // C03: fewer bytes than the minimum client handshake are answered with try-again, the buffer is not consumed.
+// the mark is HMAC-SHA256 truncated to 16 bytes (assumed length: the digest size of the hash is not modelled)
+//@ import ntor "github.com/refraction-networking/obfs4/common/ntor"
+//@ func generateMark(nodeID *ntor.NodeID, pubkey *ntor.PublicKey, representative *ntor.Representative) []byte
+//@   ensures @DET: len(result) == MarkLength
+//@   assigns nothing
 //@ func (t Transport) WrapConnection(data *bytes.Buffer, c net.Conn, phantom net.IP, regManager transports.RegManager) (transports.Registration, net.Conn, error)
 //@   requires data != nil && regManager != nil
 // (the try-again sentinel exists before the call: it is not an error value made during it)
@@ -38,10 +43,13 @@ package obfs4
 //@   atcall findMarkMac before: assert @C04: len(arg1) == len(bufStr(data))
 //@   atcall Buffer).Len#2 before: snap swept := true
 //@   ensures @C04: old(len(bufStr(data))) >= ClientMinHandshakeLength && result0 == nil && result2 == transports.ErrTryAgain ==> defined(swept)
+// C11: no slice of the received bytes is out of range, whatever their number
+//@   ensures @C11: true
+//@   checks bounds
 //@ loop 1:
 //@   invariant data != nil && regManager != nil && old(len(bufStr(data))) >= ClientMinHandshakeLength && !defined(swept)
 //@   invariant bufStr(data) == old(bufStr(data)) && nwrites(c) == old(nwrites(c)) && closed(c) == old(closed(c))
-//@   invariant len(ranged) == 0 || fresh(ranged)
+//@   invariant (len(ranged) == 0 || fresh(ranged)) && 0 <= iter && iter <= len(ranged)
 //@   invariant forall i int :: 0 <= i && i < len(ranged) ==> (exists k string :: k in validRegs(regManager, phantom) && len(k) == 52 && ranged[i] == validRegs(regManager, phantom)[k])
 // (what an iteration can change that outlives it: the keys cached in the candidate and the position of its reader)
 //@   modifies regKeys, drawn
